@@ -224,7 +224,7 @@ Definition do_delete : RM event :=
     rdo _ <~ (if hit then
                 rdo _ <~ need_unique ;;
                 rmod (fun r => set_state (set_dirty (set_listing r (with_lines (r_listing r)
-                         (filter (fun e => negb (in_rng from to (fst e))) ls))) true) StStopped)
+                         (filter (fun e => negb (in_rng from to (fst e))) (ls_lines (r_listing r))))) true) StStopped)
               else rret tt) ;;
     do_end.
 
